@@ -75,6 +75,27 @@ var fixedProgs = []fixedProg{
 		},
 	},
 	{
+		// No AND gate at all: only the local XOR / INV rules and the input
+		// and output sharing are exercised (never counted as non-trivial).
+		name:   "xor",
+		widths: []int{1, 7, 64, 65, 130},
+		source: func(n, w int) string {
+			var terms []string
+			for i := 0; i < n; i++ {
+				terms = append(terms, fmt.Sprintf("a%d", i))
+			}
+			return header(n, w, "uint", fmt.Sprintf("(uint%d, uint%d)", w, w)) +
+				"\treturn " + strings.Join(terms, " ^ ") + ", a0 ^ 1\n}\n"
+		},
+		model: func(in []*big.Int, w int) []*big.Int {
+			r := new(big.Int)
+			for _, v := range in {
+				r.Xor(r, v)
+			}
+			return []*big.Int{r, new(big.Int).Xor(in[0], big.NewInt(1))}
+		},
+	},
+	{
 		// Multiplier: many levels, batches of very different sizes.
 		name:   "mac",
 		widths: []int{2, 3, 7, 8, 13, 16, 24, 33},
@@ -176,6 +197,20 @@ var fixedProgs = []fixedProg{
 				}
 			}
 			return []*big.Int{x}
+		},
+	},
+	{
+		// Unsigned division and remainder by a non-zero divisor (the GMW
+		// target uses its own, very deep, divider circuit).
+		name:   "divmod",
+		widths: []int{2, 7, 8, 13, 16, 24},
+		source: func(n, w int) string {
+			return header(n, w, "uint", fmt.Sprintf("(uint%d, uint%d)", w, w)) +
+				fmt.Sprintf("\td := a1 | 1\n\treturn a0 / d, a%d %% d\n}\n", n-1)
+		},
+		model: func(in []*big.Int, w int) []*big.Int {
+			d := new(big.Int).Or(in[1], big.NewInt(1))
+			return []*big.Int{new(big.Int).Quo(in[0], d), new(big.Int).Rem(in[len(in)-1], d)}
 		},
 	},
 	{
